@@ -21,7 +21,8 @@ package lsputil
 //@   effects none
 //@   ensures [spec] result == u16(s, len(s))
 //@   ensures [nonneg] result >= 0
-//@   loop 1 invariant 0 <= iterpos && iterpos <= len(s) && bnd(s, iterpos) && count == u16(s, iterpos) && count >= 0
+//@   ensures [le_len] result <= len(s)
+//@   loop 1 invariant 0 <= iterpos && iterpos <= len(s) && bnd(s, iterpos) && count == u16(s, iterpos) && count >= 0 && count <= iterpos
 
 //@ func ByteOffsetToUTF16
 //@   props C01 C06
